@@ -103,6 +103,7 @@ def run(tier):
     r = rng(PROP)
     runner = genlib.Runner()
     reqs, pend = [], []
+    ireqs, ipend = [], []
     n = 100 if thorough else 28
     with scratch() as base:
         for i in range(n):
@@ -130,6 +131,24 @@ def run(tier):
             for o in ops:
                 oc.stat("edit_" + o[0])
             reqs.append(dict(cmd="uml", templates=templates_of(backend), folders=folders, diagram=diagram, elems=elems, namespaces=nss))
+            if backend == "uml":
+                # function level: the include block of every header vs Model/UmlInc
+                import sys
+                L = sys.modules["kojen.LanguageCPP"].LanguageCPP()
+                names = [c.NAME for c in cd.classes.values()]
+                for c in cd.classes.values():
+                    try:
+                        with common.quiet():
+                            types = sorted(c.GetNotForwardDeclarableNonPrimitiveTypesLinkedToThis())
+                            real = L.GetNotForwardDeclarableHeaderIncludes(c, folders, True, False)
+                    except Exception as e:      # noqa
+                        oc.corr_failures.append(dict(what="include computation raised %s: %s" % (type(e).__name__, e), cls=c.NAME, **info))
+                        continue
+                    ireqs.append(dict(cmd="umlinc", folders=folders, ns=c.NAMESPACE, types=types, names=names))
+                    ipend.append((dict(info, cls=c.NAME, types=types), real))
+                    oc.stat("include_blocks_compared")
+                    if any("::" in t and t.split("::")[-1] in "".join(t.split("::")[:-1]) for t in types):
+                        oc.stat("types_whose_class_name_occurs_in_their_namespace")
             texts = {rel: data.decode("utf-8", "replace") for rel, data in e2e.snapshot(out).items()}
             pend.append((info, list(ret), sorted(texts), elems, texts))
             if backend == "uml":
@@ -156,6 +175,12 @@ def run(tier):
                         oc.violations.append(dict(what="generated C++ rejected by g++ beyond the recorded ILayer operations: %s" % bad[:2], **info))
             shutil_rm(out)
             os.remove(proj)
+    for (info, real), a in zip(ipend, lean_batch(ireqs)):
+        oc.traces_validated += 1
+        if "error" in a:
+            oc.corr_failures.append(dict(what="Lean driver error (umlinc): " + a["error"][:200], **info))
+        elif a["text"] != real:
+            oc.corr_failures.append(dict(what="include block differs from Uml.includes: real %r / model %r" % (real, a["text"]), **info))
     for (info, ret, on_disk, elems, texts), a in zip(pend, lean_batch(reqs)):
         oc.traces_validated += 1
         if "error" in a:
